@@ -116,14 +116,19 @@ impl Runner {
             return StepReport { outcome: st.outcome, problems };
         }
         if let Some(before) = before {
-            if st.outcome.is_refusal() {
+            // time setters must leave a stream entry untouched (C17)
+            let noop_on_stream = match op {
+                Op::SetCreated(p, _) | Op::SetModified(p, _) | Op::Touch(p) => self.model.lookup(p).ok().flatten().map(|(n, _)| n.kind == crate::refmodel::Kind::Stream).unwrap_or(false),
+                _ => false,
+            };
+            if st.outcome.is_refusal() || (noop_on_stream && st.outcome.is_ok()) {
                 let after = self.live.snapshot();
                 if after != before {
                     let pos = before.iter().zip(after.iter()).position(|(a, b)| a != b);
                     problems.push((
                         "refusal".into(),
                         format!(
-                            "{} refused with {} but changed the image (len {} -> {}, first diff at {:?})",
+                            "{} returned {} (no effect expected) but changed the image (len {} -> {}, first diff at {:?})",
                             op_kind(op),
                             st.outcome.short(),
                             before.len(),
